@@ -99,7 +99,7 @@ Definition run (c : obs) : obs :=
   end.
 """ % ("; ".join(str(v) for v in tr["rdatatype_members"]),
        "; ".join(f"({t['rdclass']}, {t['rdtype']}, {TR.COQ_HAND[t['hand']]})" for t in tr["types"] if t["kind"] == "hand" and t["hand"] in TR.COQ_HAND))
-    proofs = r"""From DV Require Import Base.Prelude Model.NameM Model.SchemaM Model.DispatchM Proofs.SchemaCodec Proofs.SchemaTable Proofs.SchemaOrigin Proofs.SchemaDispatch.
+    proofs = r"""From DV Require Import Base.Prelude Model.NameM Model.SchemaM Model.DispatchM Proofs.SchemaCodec Proofs.SchemaTable Proofs.SchemaOrigin Proofs.SchemaOriginFix Proofs.SchemaDispatch.
 From Scratch Require Import GenRdtypes.
 Open Scope Z_scope.
 Theorem gen_table_ok : forallb entry_ok table = true.
@@ -128,6 +128,12 @@ Theorem gen_table_roundtrip_origin : forall o e w r ck vs b A P,
   encode_rdata (Some o) (map fst w) ck vs = Ok b ->
   decode_rdata (Some o) (map fst r) ck (A ++ b ++ P) (length A) (length b) = Ok vs.
 Proof. intros. eapply table_roundtrip_origin_thm; eauto. exact gen_table_ok. Qed.
+Theorem gen_table_fixed_point_origin : forall o e w r ck wire cur rdlen vs,
+  In e table -> entry_origin_ok e = true -> e_codec e = CSchema w r ck -> is_absolute o = true ->
+  decode_rdata (Some o) (map fst r) ck wire cur rdlen = Ok vs ->
+  exists w', encode_rdata (Some o) (map fst w) ck vs = Ok w' /\
+             decode_rdata (Some o) (map fst r) ck w' 0 (length w') = Ok vs.
+Proof. intros. eapply table_fixed_point_origin_thm; eauto. exact gen_table_ok. Qed.
 (* get_rdata_class on the module set of this tree: history-independent for safe histories *)
 Theorem gen_dispatch_history_correct : forall h,
   forallb (safe_step mods) h = true ->
@@ -144,12 +150,12 @@ Print Assumptions gen_dispatch_history_correct.
     ppath = os.path.join(d, "GenProofs.v")
     with open(ppath, "w") as f:
         f.write(proofs)
-    lib.coq_make(["Proofs/SchemaOrigin.vo", "Proofs/SchemaDispatch.vo", "Model/SchemaRun.vo"])
+    lib.coq_make(["Proofs/SchemaOriginFix.vo", "Proofs/SchemaDispatch.vo", "Model/SchemaRun.vo"])
     rc0, out0, _ = lib.run_cmd(["coqc", "-Q", lib.COQ, "DV", "-Q", d, "Scratch", path], timeout=900)
     rc, out, dt = (1, "table file did not compile:\n" + out0, 0) if rc0 != 0 else lib.run_cmd(["coqc", "-Q", lib.COQ, "DV", "-Q", d, "Scratch", ppath], timeout=900)
-    thms = ["gen_table_ok", "gen_table_origin_exceptions", "gen_table_roundtrip", "gen_table_fixed_point", "gen_table_roundtrip_origin", "gen_dispatch_history_correct", "translation_closed"]
+    thms = ["gen_table_ok", "gen_table_origin_exceptions", "gen_table_roundtrip", "gen_table_fixed_point", "gen_table_roundtrip_origin", "gen_table_fixed_point_origin", "gen_dispatch_history_correct", "translation_closed"]
     ok = rc == 0 and tr["ok"]
-    discharged = (6 if rc == 0 else 0) + (1 if tr["ok"] else 0)
+    discharged = (7 if rc == 0 else 0) + (1 if tr["ok"] else 0)
     if rc == 0 and "Closed under the global context" not in out:
         ok = False
     log = ""
@@ -158,7 +164,7 @@ Print Assumptions gen_dispatch_history_correct.
     if rc != 0:
         log += "generated table does not check:\n" + out[-2500:]
     _gen_state.update(
-        ok=ok, obligations=7, discharged=discharged, theorems=thms, log=log, compiled=(rc0 == 0),
+        ok=ok, obligations=8, discharged=discharged, theorems=thms, log=log, compiled=(rc0 == 0),
         info={"types_schema": sum(1 for t in tr["types"] if t["kind"] == "schema"),
               "types_hand": sorted(t["name"] for t in tr["types"] if t["kind"] == "hand"),
               "types_error": sorted(t["name"] for t in tr["types"] if t["kind"] == "error"),
@@ -401,6 +407,28 @@ def cases(ctx):
         pre = bytes(rng.randrange(256) for _ in range(rng.choice([0, 3])))
         yield dec_case(cl, ty, pre + data + b"\x01", len(pre), len(data), None)
     ctx.notes["types_covered"] = len(types)
+    # ---- the accepted strings of the exhaustive small scope also go through the model
+    opaque = {t["name"] for t in types if t["kind"] == "schema" and [f["k"] for f in t["reader"]] == ["Remaining"]}
+    import itertools
+    for t in types:
+        cl = real_class(t)
+        for L in range(0, ctx.n(2, 3)):
+            if L == 2 and t["name"] in opaque:
+                continue
+            picked = []
+            for tup in itertools.product(range(256), repeat=L):
+                w = bytes(tup)
+                try:
+                    dns.rdata.from_wire(cl, t["rdtype"], w, 0, L)
+                except Exception:
+                    if L > 0 and not (L == 1 and tup[0] in (0, 255)):
+                        continue
+                picked.append(w)
+            if len(picked) > 600:   # e.g. SSHFP accepts all 65536: the model gets an even sample,
+                picked = picked[:: len(picked) // 600]   # the oracle (extra) still sees every string
+            for w in picked:
+                ctx.count("dec:small-scope")
+                yield dec_case(cl, t["rdtype"], w, 0, L, None)
     # ---- get_rdata_class lookup histories, each in a fresh interpreter
     for h in histories(ctx):
         yield "history", [22, h]
@@ -467,6 +495,56 @@ def histories(ctx):
             h = [st for st in h if not (st[0] == 0 and st[1] == 255)] or [[0, 1, 1]]
         ctx.count("history:" + ("safe" if history_safe(h) else "any-first"))
         yield h
+
+
+SMALL_ALPHABET = [0, 1, 2, 3, 4, 16, 32, 63, 64, 127, 128, 191, 192, 193, 254, 255]
+
+
+def small_scope(ctx):
+    """exhaustive small scope: EVERY octet string of length <= 1 (quick) / <= 2 (thorough), and
+    every string of length 3 over a 16-octet alphabet (thorough), offered as RDATA of every
+    implemented type"""
+    import itertools
+
+    for t in [t for t in T().types if t["kind"] in ("schema", "hand")]:
+        cl = real_class(t)
+        for L in range(0, ctx.n(2, 3)):
+            for tup in itertools.product(range(256), repeat=L):
+                yield t, cl, bytes(tup)
+        if ctx.tier == "thorough":
+            for tup in itertools.product(SMALL_ALPHABET, repeat=3):
+                yield t, cl, bytes(tup)
+
+
+def extra(ctx):
+    """oracle over the exhaustive small scope (implementation only; the accepted strings of the
+    smallest lengths also go through the model, see cases())"""
+    F = []
+    n = acc = 0
+    for t, cl, w in small_scope(ctx):
+        n += 1
+        try:
+            dns.rdata.from_wire(cl, t["rdtype"], w, 0, len(w))
+        except dns.exception.FormError:
+            continue
+        except Exception as e:  # noqa
+            F.append({"kind": "dec:small-scope", "what": "decoding raised something that is not a format error: " + type(e).__name__,
+                      "type": t["name"], "case_kind": "dec", "case": [12, cl, t["rdtype"], w, 0, len(w), None]})
+            continue
+        acc += 1
+        case = lib.normalize([12, cl, t["rdtype"], w, 0, len(w), None])
+        out = lib.normalize(impl(case))
+        for f in oracle(ctx, "dec", case, out):
+            f.setdefault("case_kind", "dec")
+            f.setdefault("case", case)
+            F.append(f)
+            if len(F) > 20:
+                return F
+    ctx.notes["exhaustive"] = True
+    ctx.notes["extra_evaluations"] = n
+    ctx.notes["extra_nontrivial"] = acc
+    ctx.notes["small_scope"] = ("all octet strings of length <= %d as RDATA of every implemented type" % (1 if ctx.quick else 2)) + ("" if ctx.quick else "; length 3 over a 16-octet alphabet")
+    return F
 
 
 def break_value(rng, t, vals):
@@ -835,7 +913,8 @@ def widen(ctx, disagreements):
     tab = T()
     want = set()
     for d in disagreements[:40]:
-        want.add((d["case"][1], d["case"][2]))
+        if d["case"][0] in (1, 2, 11, 12):
+            want.add((d["case"][1], d["case"][2]))
     if not want:
         want = {(real_class(t), t["rdtype"]) for t in tab.types if t["kind"] in ("schema", "hand")}
     rng = random.Random(ctx.seed + 77)
